@@ -84,7 +84,7 @@ inductive XRes
   | ok (d : Dir)
   /-- the extraction thread panicked (`expect`): `Err("failed to extract files from zip")` -/
   | err
-deriving Repr
+deriving DecidableEq, Repr
 
 /-- `extract_files(archive, dest, files)`: `for x in files { if let Ok(file) = archive.by_name(x) { … } }`:
 ONLY the listed names are looked up; an entry that is not there is skipped; the file is written at
